@@ -27,6 +27,30 @@ theorem C19_tags (c : Cfg) (s t : Nat) :
     isTag c s t = true ↔ (t ∈ (c.args s).tags ∨ (t = 0 ∧ (c.args s).accepted = true)) :=
   isTag_iff c s t
 
+/-- **Tags on the built machine, full strength** — `TagsExact defs heap` (Model/Features.lean): after
+`add_states`, every state answers `is_<t>` exactly for the tags of its own definition.  This is what the
+property asks; it is **false** of the code (known finding F-C19-shared-tags-list: `Error.__init__` appends
+'accepted' to the caller's list object, so a state that shares its `tags=` list with an accepted state
+becomes accepted too).  It holds under the exclusion `NoSharedAccepted`: -/
+theorem C19_tags_built_partial (defs : List SDef) (heap : Nat → List Nat) (h : NoSharedAccepted defs) :
+    TagsExact defs heap :=
+  tagsExact_of_noShared defs heap h
+
+/-- witness: list object 0 = ['t1'] (tag 1) passed to state 1 (accepted) and to state 2 (not accepted) -/
+def C19_witness : List SDef := [{ name := 1, tagsRef := some 0, accepted := true }, { name := 2, tagsRef := some 0 }]
+
+/-- the negation of the full-strength statement on the witness: state 2 answers `is_accepted` True -/
+theorem C19_tags_built_counterexample : ¬ TagsExact C19_witness (fun _ => [1]) := by
+  intro h
+  have h2 := (h { name := 2, tagsRef := some 0 } (by decide) 0).mp (by decide)
+  revert h2
+  decide
+
+/-- … and therefore entering it, a dead end, does not raise although it was never declared accepted -/
+theorem C19_error_counterexample :
+    (enterOp { feats := [.error], args := builtArgs C19_witness (fun _ => [1]), hasOut := fun _ => false }
+      2 0 1 FS.init).2 = .entered := by decide
+
 /-- **Error.** With `Error` anywhere in the decorator, entering `s` raises MachineError iff `s` has no
 outgoing transition and is not accepted — in every feature state, whatever else is composed before or
 after. (`hwf`: a self re-entry presupposes an outgoing transition, true of every engine.) -/
